@@ -4,6 +4,8 @@
 package config
 
 import (
+	"context"
+
 	"github.com/samaritan-proxy/samaritan/pb/config/bootstrap"
 	"github.com/samaritan-proxy/samaritan/pb/config/service"
 )
@@ -54,3 +56,33 @@ func (c *Config) VerifDump() map[string]struct {
 	}
 	return out
 }
+
+// VerifStream is the scripted side of a subscription stream.
+type VerifStream interface {
+	Send(subscribed, unsubscribed []string) error
+	Recv() error
+}
+
+// VerifSubClient drives the (unexported) subscription client shared by the
+// service-config and service-endpoint discovery clients with a scripted stream maker.
+type VerifSubClient struct{ c *svcDiscoveryClient }
+
+// VerifNewSubClient is newSvcDiscoveryClient.
+func VerifNewSubClient(maker func(ctx context.Context) (VerifStream, error)) *VerifSubClient {
+	return &VerifSubClient{c: newSvcDiscoveryClient("verif", func(ctx context.Context) (svcDiscoveryStream, error) {
+		s, err := maker(ctx)
+		if err != nil {
+			return nil, err
+		}
+		return s, nil
+	})}
+}
+
+func (v *VerifSubClient) Subscribe(name string)   { v.c.Subscribe(name) }
+func (v *VerifSubClient) Unsubscribe(name string) { v.c.Unsubscribe(name) }
+
+// RunOnce is one iteration of the retry loop (run): create a stream, resubscribe, serve it until it fails.
+func (v *VerifSubClient) RunOnce(ctx context.Context) { v.c.run(ctx) }
+
+// Run is the retry loop itself.
+func (v *VerifSubClient) Run(ctx context.Context) { v.c.Run(ctx) }
